@@ -10,11 +10,13 @@ unit of s and of no other system, and is absent otherwise.
 
 Magnitudes are those of the independent unit-symbol oracle (Core/Symbol.lean, Core/Atoms.lean),
 compared exactly as rationals times powers of π. That the library's own conversion constants agree
-with the same oracle is C01.
+with the same oracle is C01; its table theorem is restated here (`constants_match_magnitudes`) so that a
+consistent unit whose *conversion constant* drifts from its symbol's magnitude fails this check too.
 -/
 import PhQVerif.Theory.Tables
 import PhQVerif.Checkers
 import PhQVerif.Generated.Obl_C07
+import PhQVerif.Props.C01
 
 namespace PhQVerif.Props.C07
 open PhQVerif Generated
@@ -68,5 +70,12 @@ theorem coherent :
     simpa [hs] using this
 
 example : unitSystemValues = [0, 1, 2, 3] := by decide
+
+/-- **C07 (the code's constants).** The magnitudes above are those of the symbols; the constants the
+code converts with agree with them to `4·2^-p` in every numeric type, for every unit — in particular for
+the 148 consistent units (C01's table theorem). -/
+theorem constants_match_magnitudes (fm : Fm) :
+    ∀ uk ∈ C01.kernelRows fm, checkKernels fm 4 uk.1 uk.2 = true :=
+  C01.kernels_match_their_symbols fm
 
 end PhQVerif.Props.C07
